@@ -13,6 +13,34 @@ import registry
 
 CLAIMS: dict[str, dict] = {pid: d["claim"] for pid, d in registry.load_claims().items() if d.get("claim")}
 
+CLAIMS["C10"] = {
+    "text": "Lean theorems over a hand-written model of HotReloader.check_and_reload_async (four atomic blocks: snapshot under the lock / "
+            "etag() / load() / publish-or-register-error under the lock) for arbitrary answers of the source, proved by case analysis "
+            "and induction over histories of any length: a check never raises and returns a bool; a False check leaves engine policy and "
+            "cache untouched; the active policy is always the initial one or a document a successful load() returned, installed with one "
+            "cache clear in the very check that returned True, and for non-overlapping checks it is the most recently loaded one; the "
+            "suppression window never exceeds max(0.2, backoff_max*(1+jitter_ratio)) and forced checks ignore it; the three safety "
+            "statements also hold, by an invariant of a small-step semantics, for every interleaving of any number of overlapping checks. "
+            "Convergence (engine = source's document after one unforced check once the source is stable and the window is over, two if the "
+            "source settles in the middle of the first; later checks False without loading when the source has a tag; initial_load off: "
+            "provided the source changed after construction) is proved for every 'honest' source and the file (under the (size,mtime) "
+            "proviso), S3 (all detectors and fall-backs), scripted custom and HTTP-without-server-ETags sources are proved honest. "
+            "PARTIAL for HTTP with server ETags: the code's etag() returns the locally cached tag (known finding F9); a counterexample "
+            "theorem shows non-convergence for the code as it is, convergence is proved for the repaired variant, and every run determines "
+            "which variant the code refines. The model is tied to the real HotReloader + Guard + File/HTTP/S3 sources on every run by an "
+            "exhaustive small-scope + random differential run with injected clock/PRNG (12 source kinds, plain/forced/async/overlapping "
+            "checks, mid-check changes, all fault kinds), and the spec predicates are evaluated by the Lean driver on the implementation's trace.",
+    "design_ref": "DESIGN.md §5 C10, §3.4, §4.3; notes/C10.md",
+    "note": "Trusted: Lean kernel; the hand-written model (validated differentially, not verified, against the code); harness generators, fakes "
+            "and the deterministic interleaving of overlapping checks at the source calls (the two locked blocks are assumed atomic; every "
+            "write to the guarded fields and every set_policy is checked at run time to happen under the reloader lock, every source call "
+            "outside it). Assumptions: sources raise only Exception subclasses; every written document is new (no return to an earlier "
+            "content); file contents change together with size or mtime. Cannot exhibit: real network and S3 behaviour (faked), wall-clock "
+            "jumps, the background polling thread's timing (start/stop belong to C14). Known finding F9 (HTTP etag() is the cached tag) is "
+            "reported as KNOWN-FINDING on every run while the code refines the defect variant.",
+    "technique": "Lean 4 proof over a hand-written model + differential correspondence check",
+}
+
 ALL = [f"C{i:02d}" for i in range(1, 21)]
 
 
